@@ -536,6 +536,11 @@ func (E *Engine) oblige(st *State, kind, site, goal, pretty, pos string, cl *Cla
 		return
 	}
 	c := E.cur
+	if E.Quick && isSlow(cl) {
+		// proved in the thorough tier only (see isSlow)
+		E.Deferred = append(E.Deferred, fmt.Sprintf("%s/%s#%s", c.short, kind, site))
+		return
+	}
 	name := fmt.Sprintf("%s/%s", c.short, kind)
 	if site != "" {
 		name += "#" + site
